@@ -124,7 +124,7 @@ def run_parse_cases(run, cases, witness_for=None, timeout=900, mem_gb=12, tv=Tru
 def classify_failed(r):
     props = [f for f in r['failed'] if 'PROP:' in f['desc']]
     unwind = [f for f in r['failed'] if 'unwinding assertion' in f['desc']]
-    mach = [f for f in r['failed'] if 'MACHINERY' in f['desc']]
+    mach = [f for f in r['failed'] if 'MACHINERY' in f['desc'] or 'no body for callee' in f['desc']]
     other = [f for f in r['failed'] if f not in props and f not in unwind and f not in mach and 'WITNESS' not in f['desc']]
     return props, unwind, mach, other
 
@@ -156,7 +156,9 @@ def handle_result(run, r, c):
         run.replays += 1
     desc = '; '.join(sorted(set(f['desc'] for f in (props + other + unwind + mach))))[:300]
     robj = {'query': r['id'], 'unit': r['meta'].get('unit'), 'L': r['meta'].get('L'), 'opts': r['meta'].get('opts'), 'input_hex': vlib.hexs(inp), 'input': inp,
-            'failed': r['failed'][:8], 'native': rep, 'grammar': c.g.name if c else None}
+            'failed': r['failed'][:8], 'native': rep, 'grammar': c.g.name if c else None, 'asserts': c.asserts if c else None}
+    if mach and any('no body' in f['desc'] for f in mach):
+        run.inconclusive.append('%s: %s' % (r['id'], desc)); return
     if rep and rep['verdict'] in ('FAIL', 'CRASH'):
         run.violation('%s on input %s (unit %s): solver counterexample reproduces natively: %s' % (desc, vlib.hexs(inp), r['meta'].get('unit'), rep['why'][:160]), robj)
     elif rep and rep['verdict'] == 'OK':
